@@ -1470,6 +1470,9 @@ class Pregex():
             elif _re.fullmatch(r"\\b", pattern,
                 flags=__class__.__flags | _re.IGNORECASE) is not None:
                 return _Type.Assertion, True
+            elif pattern in ("^", "$", "\\A", "\\Z"):
+                # An anchor that has been applied to the empty pattern.
+                return _Type.Assertion, False
             else:
                 return _Type.Token, True
 
